@@ -1,6 +1,6 @@
 ------------------------------- MODULE MTVRP -------------------------------
 (* Multi-task vehicle routing (16 variants expressed as DATA).
-   inst = [N, D, lh, bh, cap, open, lim, H, early, late, svc]
+   inst = [N, D, lh, bh, cap, open, lim, H, early, late, svc, speed2]
      customers 1..N, depot 0, integer metric distance matrix D (read with Dist),
      lh[j] / bh[j]   linehaul (delivery) / backhaul (pickup) quantity of customer j,
                      exactly one of the two is positive,
@@ -10,7 +10,9 @@
      H               end of the depot window [0, H]; INF without time windows,
      early/late/svc  service window and service duration of customer j (1..N);
                      trivial window [0, INF], svc 0 in the variants without TW.
-   Speed is 1: travel time = distance.  All vehicles leave the depot at time 0.
+     speed2          twice the vehicle speed (2 = the default speed 1): driving i -> j takes
+                     2 * D[i][j] / speed2 time units (must be integral).
+   All vehicles leave the depot at time 0.
    PART 1 is the problem as defined independently of rl4co (the oracle);
    PART 2 is a code-shaped model of rl4co.envs.routing.mtvrp.MTVRPEnv.        *)
 EXTENDS Util
@@ -23,23 +25,30 @@ Actions(inst) == 0..inst.N
 IsLine(inst, j) == inst.lh[j] > 0
 IsBack(inst, j) == inst.bh[j] > 0
 
+\* driving time (distance / speed)
+Travel(inst, i, j) == (2 * Dist(inst.D, i, j)) \div inst.speed2
+
 Metric(D, n) == \A i, j, k \in 0..n : Dist(D, i, k) <= Dist(D, i, j) + Dist(D, j, k)
 
 \* What a generator must deliver: one kind of demand per customer, fitting a vehicle;
 \* proper windows; a metric; every customer can be served alone by a fresh vehicle
 \* (there and, for closed routes, back) within window, horizon and length limit.
-\* MTVRPGenerator delivers more slack than this: early[j] >= d(0,j),
-\* late[j] + svc[j] + d(j,0) <= H and 2 d(0,j) < lim.
+\* MTVRPGenerator delivers more slack than this: early[j] >= travel(0,j), late[j] > early[j],
+\* late[j] + svc[j] + travel(j,0) <= H (open routes too) and 2 d(0,j) < lim; hence the strict
+\* `<` for the lone round trip and the last conjunct (which the env's checker asserts as a
+\* precondition for every row, open or not) are part of what a generator delivers.
 InstanceOK(inst) ==
-  /\ inst.N >= 1 /\ inst.cap >= 1
+  /\ inst.N >= 1 /\ inst.cap >= 1 /\ inst.speed2 >= 1
   /\ Metric(inst.D, inst.N)
+  /\ \A i, j \in 0..inst.N : (2 * Dist(inst.D, i, j)) % inst.speed2 = 0
   /\ \A j \in Cust(inst) :
        /\ (IsLine(inst, j) /\ inst.bh[j] = 0) \/ (IsBack(inst, j) /\ inst.lh[j] = 0)
        /\ inst.lh[j] + inst.bh[j] <= inst.cap
        /\ 0 <= inst.early[j] /\ inst.early[j] < inst.late[j] /\ inst.svc[j] >= 0
-       /\ Dist(inst.D, 0, j) <= inst.late[j]
+       /\ Travel(inst, 0, j) < inst.late[j]
        /\ Dist(inst.D, 0, j) + (IF inst.open THEN 0 ELSE Dist(inst.D, j, 0)) <= inst.lim
-       /\ ~inst.open => Max(Dist(inst.D, 0, j), inst.early[j]) + inst.svc[j] + Dist(inst.D, j, 0) <= inst.H
+       /\ ~inst.open => Max(Travel(inst, 0, j), inst.early[j]) + inst.svc[j] + Travel(inst, j, 0) < inst.H
+       /\ inst.early[j] + inst.svc[j] + Travel(inst, j, 0) <= inst.H
 
 (* ------------------------- PART 1: ground truth ------------------------- *)
 \* One route r = the customers one vehicle serves, in order, starting from the depot at 0.
@@ -58,8 +67,8 @@ LineBeforeBack(inst, r) ==
 \* service start at the k-th customer of the route: wait for the window to open
 RECURSIVE ServiceStart(_, _, _)
 ServiceStart(inst, r, k) ==
-  LET arrive == IF k = 1 THEN Dist(inst.D, 0, r[1])
-                ELSE ServiceStart(inst, r, k - 1) + inst.svc[r[k - 1]] + Dist(inst.D, r[k - 1], r[k])
+  LET arrive == IF k = 1 THEN Travel(inst, 0, r[1])
+                ELSE ServiceStart(inst, r, k - 1) + inst.svc[r[k - 1]] + Travel(inst, r[k - 1], r[k])
   IN Max(arrive, inst.early[r[k]])
 
 LeaveLast(inst, r) == ServiceStart(inst, r, Len(r)) + inst.svc[Last(r)]
@@ -74,7 +83,7 @@ RouteOK(inst, r) ==
   /\ LineBeforeBack(inst, r)
   /\ \A k \in DOMAIN r : ServiceStart(inst, r, k) <= inst.late[r[k]]     \* service starts inside the window
   /\ RouteLength(inst, r) <= inst.lim
-  /\ ~inst.open => LeaveLast(inst, r) + Dist(inst.D, Last(r), 0) <= inst.H   \* back before the depot closes
+  /\ ~inst.open => LeaveLast(inst, r) + Travel(inst, Last(r), 0) <= inst.H   \* back before the depot closes
 
 \* nothing violated so far.  The route being driven is judged like a finished one (for a
 \* closed route: including the way home); D is a metric and waiting is allowed, so a
@@ -99,16 +108,9 @@ Pointless(inst, pre, a) == a = 0 /\ Prev(pre) = 0
 StepBound(inst) == 2 * inst.N + 1
 PadNeeded(inst) == TRUE
 
-\* bookkeeping shown to the policy (current_time, current_route_length, used capacities):
-\* they must describe the route being driven
-StepOK(inst, pre, st) ==
-  LET r == CurRoute(pre) IN
-  /\ st.cur = Prev(pre)
-  /\ st.t   = (IF r = <<>> THEN 0 ELSE LeaveLast(inst, r))
-  /\ st.len = (IF r = <<>> THEN 0 ELSE PathLen(inst.D, <<0>> \o r))
-  /\ st.ulh = LineLoad(inst, r)
-  /\ st.ubh = BackLoad(inst, r)
-  /\ ToSetU(st.visited) \ {0} = ToSetU(pre) \ {0}
+\* no routing property speaks about the bookkeeping tensors themselves (current_time,
+\* current_route_length, used capacities): they are compared with the model by ConfState
+StepOK(inst, pre, st)   == TRUE
 FinalOK(inst, sol, fin) == TRUE
 
 (* ------------------- PART 2: implementation model ----------------------- *)
@@ -116,7 +118,7 @@ FinalOK(inst, sol, fin) == TRUE
 \* current_route_length, used_capacity_linehaul, used_capacity_backhaul
 Init0(inst) == [visited |-> {}, cur |-> 0, t |-> 0, len |-> 0, ulh |-> 0, ubh |-> 0]
 
-Arrival(inst, s, j) == s.t + Dist(inst.D, s.cur, j)               \* current_time + d_ij / speed
+Arrival(inst, s, j) == s.t + Travel(inst, s.cur, j)               \* current_time + d_ij / speed
 
 \* QUIRK get_action_mask `can_reach_customer = arrival_time < late_tw`: STRICT, whereas
 \* check_solution_validity (and the problem) accept arrival = late
@@ -126,9 +128,10 @@ CanReachCustomer(inst, s, j) == Arrival(inst, s, j) < inst.late[j]
 \* an open route multiplies the left side by 0, i.e. the test degenerates to 0 < H
 CanReachDepot(inst, s, j) ==
   (IF inst.open THEN 0
-   ELSE Max(Arrival(inst, s, j), inst.early[j]) + inst.svc[j] + Dist(inst.D, j, 0)) < inst.H
+   ELSE Max(Arrival(inst, s, j), inst.early[j]) + inst.svc[j] + Travel(inst, j, 0)) < inst.H
 
-\* `current_route_length + d_ij + d_j0 * ~open_route > distance_limit` (non-strict acceptance)
+\* `current_route_length + d_ij + d_j0 * ~open_route > distance_limit` (non-strict acceptance;
+\* the limit is on DISTANCE: speed plays no role here)
 ExceedsDistLimit(inst, s, j) ==
   s.len + Dist(inst.D, s.cur, j) + (IF inst.open THEN 0 ELSE Dist(inst.D, j, 0)) > inst.lim
 
@@ -166,7 +169,7 @@ Step(inst, s, a) ==
   [visited |-> s.visited \cup {a},
    cur     |-> a,
    t       |-> IF a = 0 THEN 0
-               ELSE Max(s.t + Dist(inst.D, s.cur, a), inst.early[a]) + inst.svc[a],
+               ELSE Max(s.t + Travel(inst, s.cur, a), inst.early[a]) + inst.svc[a],
    len     |-> IF a = 0 THEN 0 ELSE s.len + Dist(inst.D, s.cur, a),
    ulh     |-> IF a = 0 THEN 0 ELSE s.ulh + inst.lh[a],
    ubh     |-> IF a = 0 THEN 0 ELSE s.ubh + inst.bh[a]]
